@@ -71,6 +71,38 @@ def is_str_expr(e, fn, mod, visiting=frozenset()):
     return False
 
 
+def roles(fn):
+    """names of the quantities of the timed arm, found by their definitions (not by their spelling)"""
+    r = {}
+    for n in ast.walk(fn):
+        if isinstance(n, ast.Assign) and len(n.targets) == 1 and isinstance(n.targets[0], ast.Name):
+            v = n.value
+            if isinstance(v, ast.Call) and call_name(v) == 'get_distance':
+                r['distance'] = n.targets[0].id
+            consts = {c.value for c in ast.walk(v) if isinstance(c, ast.Constant) and isinstance(c.value, int)}
+            if isinstance(v, ast.BinOp) and {3600, 60} <= consts:
+                r['duration'] = n.targets[0].id
+                for b in ast.walk(v):
+                    if isinstance(b, ast.BinOp) and isinstance(b.op, ast.Mult):
+                        for c, o in ((b.left, b.right), (b.right, b.left)):
+                            if isinstance(c, ast.Constant) and c.value == 3600 and isinstance(o, ast.Name):
+                                r['hours'] = o.id
+                            if isinstance(c, ast.Constant) and c.value == 60 and isinstance(o, ast.Name):
+                                r['minutes'] = o.id
+                top = v
+                while isinstance(top, ast.BinOp) and isinstance(top.op, ast.Add):
+                    if isinstance(top.right, ast.Name):
+                        r['seconds'] = top.right.id
+                        break
+                    top = top.left
+    for n in ast.walk(fn):
+        if isinstance(n, ast.Assign) and len(n.targets) == 1 and isinstance(n.targets[0], ast.Name) and isinstance(n.value, ast.BinOp) \
+                and isinstance(n.value.op, ast.Div) and r.get('duration') and ast.unparse(n.value.right) == r['duration'] \
+                and r.get('distance') and r['distance'] in ast.unparse(n.value.left):
+            r['velocity'] = n.targets[0].id
+    return r
+
+
 def run(ctx, repo):
     P = Pats(repo)
     mod = repo.module(UTILS)
@@ -79,6 +111,11 @@ def run(ctx, repo):
     if 'errorKlass' not in params:
         raise AnalysisError('anchor vanished: parameter errorKlass')
     ek = 'errorKlass'
+    R = roles(fn)
+    for need in ('distance', 'duration', 'hours', 'minutes', 'seconds', 'velocity'):
+        if need not in R:
+            raise AnalysisError('%s: cannot identify the %s of the timed arm' % (FN, need))
+    V, DI, SEC, MIN = R['velocity'], R['distance'], R['seconds'], R['minutes']
     ctx.explanation = (
         'Exception discipline is a may-raise rule on every path of check_performance_for_discipline: each explicit raise '
         'uses the errorKlass parameter and each int()/float() of text-derived data lies in a try whose handler raises '
@@ -148,7 +185,7 @@ def run(ctx, repo):
     # on the distance class; a fast limit written as its own test sits under its distance class
     guards = []
     for n in ast.walk(fn):
-        if isinstance(n, ast.If) and 'velocity' in ast.unparse(n.test) and any(isinstance(r, ast.Raise) for r in n.body):
+        if isinstance(n, ast.If) and V in {x.id for x in ast.walk(n.test) if isinstance(x, ast.Name)} and any(isinstance(r, ast.Raise) for r in n.body):
             consts = {float(c.value) for c in ast.walk(n.test) if isinstance(c, ast.Constant) and isinstance(c.value, (int, float)) and not isinstance(c.value, bool)}
             conds = []
             c, p = n, getattr(n, '_parent', None)
@@ -164,24 +201,24 @@ def run(ctx, repo):
                         'the documented sanity limit %s m/s (%s) is no longer enforced by a raise of errorKlass' % (lim, what))
             continue
         n, consts, conds = hits[0]
-        dconds = [(t, pol) for t, pol in conds if 'distance <' in t or 'distance >' in t or 'velocity' in t]
+        dconds = [(t, pol) for t, pol in conds if (DI + ' <') in t or (DI + ' >') in t or V in t]
         if lim == 0.5:
-            if 'distance' in ast.unparse(n.test):
+            if DI in {x.id for x in ast.walk(n.test) if isinstance(x, ast.Name)}:
                 dconds = [(ast.unparse(n.test), True)] + dconds
             if dconds:
-                dc = [d for d in dconds if 'distance' in d[0]] or dconds
+                dc = [d for d in dconds if DI in d[0]] or dconds
                 ctx.finding('R6', '%s::%s::slow limit depends on the distance class' % (UTILS, FN), UTILS, n.lineno,
                             'the too-slow limit (0.5 m/s) is only reached when `%s` is %s: for the other events an absurdly slow time is '
                             'accepted' % (dc[0][0], dc[0][1]), "('100', '45:10.5')")
             else:
                 ctx.ok('R6', 'too-slow limit applies to every distance')
-        elif len(consts & {10.0, 11.0}) == 2 or 'distance' in ast.unparse(n.test):
+        elif len(consts & {10.0, 11.0}) == 2 or DI in ast.unparse(n.test):
             ctx.ok('R6', 'fast limit %s selected inside the test %s' % (lim, unparse(n.test)[:50]))
         else:
-            dcond = 'distance <= 400' if lim == 11.0 else 'distance > 400'
+            dcond = (DI + ' <= 400') if lim == 11.0 else (DI + ' > 400')
             ok = any((t == dcond and pol) for t, pol in dconds) or \
-                (lim == 10.0 and any(t == 'distance <= 400' and not pol for t, pol in dconds)) or \
-                (lim == 11.0 and any(t == 'distance > 400' and not pol for t, pol in dconds))
+                (lim == 10.0 and any(t == DI + ' <= 400' and not pol for t, pol in dconds)) or \
+                (lim == 11.0 and any(t == DI + ' > 400' and not pol for t, pol in dconds))
             if ok:
                 ctx.ok('R6', 'fast limit %s under %s' % (lim, dcond))
             else:
@@ -244,9 +281,9 @@ def run(ctx, repo):
             for c in ast.walk(n.test):
                 if isinstance(c, ast.Compare) and len(c.ops) == 1 and isinstance(c.comparators[0], ast.Constant):
                     l, op, v = ast.unparse(c.left), c.ops[0], c.comparators[0].value
-                    if l == 'seconds' and ((isinstance(op, ast.GtE) and v == 60) or (isinstance(op, ast.Gt) and v in (59, 59.99, 59.999))):
+                    if l == SEC and ((isinstance(op, ast.GtE) and v == 60) or (isinstance(op, ast.Gt) and v in (59, 59.99, 59.999))):
                         found_sec = True
-                    if l == 'minutes' and ((isinstance(op, ast.GtE) and v == 60) or (isinstance(op, ast.Gt) and v == 59)):
+                    if l == MIN and ((isinstance(op, ast.GtE) and v == 60) or (isinstance(op, ast.Gt) and v == 59)):
                         found_min = True
     if found_sec and found_min:
         ctx.ok('R5', 'seconds >= 60 and minutes >= 60 are refused with errorKlass')
